@@ -1364,11 +1364,29 @@ func ClosureArg(v ssa.Value) *ssa.Function {
 	switch x := StripConv(v).(type) {
 	case *ssa.MakeClosure:
 		f, _ := x.Fn.(*ssa.Function)
-		return f
+		return unwrapBound(f)
 	case *ssa.Function:
-		return x
+		return unwrapBound(x)
 	}
 	return nil
+}
+
+// unwrapBound: a method value (`db.fetchMany`) is a closure over a synthetic
+// bound-method wrapper; the function that matters is the method it calls.
+func unwrapBound(f *ssa.Function) *ssa.Function {
+	if f == nil || f.Synthetic == "" || f.Blocks == nil {
+		return f
+	}
+	for _, b := range f.Blocks {
+		for _, in := range b.Instrs {
+			if cc := CallOf(in); cc != nil {
+				if g := cc.StaticCallee(); g != nil && g.Synthetic == "" && g.Blocks != nil {
+					return g
+				}
+			}
+		}
+	}
+	return f
 }
 
 // FreeVarNamed returns fn's free variable called name (nil if none).
